@@ -44,6 +44,14 @@ type Term struct {
 	lo, hi *big.Int // interval, Int terms only; nil = unbounded
 	size   int      // node count estimate
 	h1, h2 uint64   // structural hash (path independent), set by seal()
+	sel    *selInfo // set on the result of a table look-up with symbolic index
+}
+
+// selInfo: the term is table[base] for base in [lo, lo+len(vals)).
+type selInfo struct {
+	base *Term
+	lo   int
+	vals []*big.Int
 }
 
 func mix(h, x uint64) uint64 {
@@ -308,6 +316,21 @@ func mkDiv(a *Term, c *big.Int) *Term {
 	if a.op == OpMulC {
 		if r := new(big.Int).Mod(a.c, c); r.Sign() == 0 && a.c.Sign() > 0 {
 			return mkMulC(a.args[0], new(big.Int).Div(a.c, c))
+		}
+	}
+	if a.op == OpAdd {
+		for i := 0; i < 2; i++ {
+			p, r := a.args[i], a.args[1-i]
+			if p.op == OpMulC && p.c.Sign() > 0 && r.lo != nil && r.hi != nil && r.lo.Sign() >= 0 && r.hi.Cmp(p.c) < 0 {
+				if q, m := new(big.Int).DivMod(c, p.c, new(big.Int)); q.Sign() > 0 && m.Sign() == 0 {
+					// (x*K + r) div (K*q) with 0 <= r < K  ==  x div q
+					return mkDiv(p.args[0], new(big.Int).Div(c, p.c))
+				}
+				if q, m := new(big.Int).DivMod(p.c, c, new(big.Int)); q.Sign() > 0 && m.Sign() == 0 {
+					// (x*(c*q) + r) div c  ==  x*q + r div c
+					return mkAdd(mkMulC(p.args[0], new(big.Int).Div(p.c, c)), mkDiv(r, c))
+				}
+			}
 		}
 	}
 	t := newTerm(OpDiv, false, a)
@@ -703,6 +726,12 @@ func mkBV(op string, width uint, a, b *Term) *Term {
 		t.hi = minB(minB(a.hi, b.hi), t.hi)
 		if t.hi == nil {
 			t.hi = new(big.Int).Sub(pow2(width), bigOne)
+		}
+	} else if a.hi != nil && b.hi != nil && a.lo != nil && b.lo != nil && a.lo.Sign() >= 0 && b.lo.Sign() >= 0 {
+		// or/xor of two values below 2^k stays below 2^k
+		k := uint(max(a.hi.BitLen(), b.hi.BitLen()))
+		if k < width {
+			t.hi = new(big.Int).Sub(pow2(k), bigOne)
 		}
 	}
 	return t
